@@ -168,6 +168,9 @@ def tour_oracle(fit, n, script, res, ts):
         if i != first:
             return 'tournament:first', ('round %d: minimum fitness %r is first held at index %d, selected index %d'
                                         % (r_, m, first, i))
+    if res['used'] != n * ts:
+        return 'tournament:round-size', ('%d draws consumed for n = %d selections with TOURNAMENT_SIZE = %d (expected %d)'
+                                         % (res['used'], n, ts, n * ts))
     return None, None
 
 
@@ -187,7 +190,61 @@ def tour_cases():
         res = run_tournament(fit, c % 2 == 0, n, script)
         k, msg = tour_oracle(fit, n, script, res, ts) if ts >= 1 else (None, None)
         rows.append({'fit': [key(v) for v in fit], 'as_array': c % 2 == 0, 'n': n, 'script': script, 'res': res,
-                     'oracle': msg, 'okey': k, 'ts': ts})
+                     'oracle': msg, 'okey': k, 'ts': ts, 'family': 'ties'})
+    rows += near_tie_rows(r, ts)
+    rows += size_history_rows(r)
+    return rows
+
+
+# near-tied DISTINCT fitness values, the larger one at the LOWER index, with exact ties and signed zeros mixed in:
+# the winner must be located by exact equality with the round minimum
+NEAR = [(1.0 + 1e-9, 1.0), (2e-9, 1e-9), (1e5 + 1e-3, 1e5), (-1.0, -1.0 - 1e-9), (3.0000001, 3.0), (1e-300, 5e-324),
+        (0.0, -0.0), (1.0, 1.0), (nextafter(2.0, 3.0), 2.0)]
+
+
+def tour_row(fit, as_array, n, script, ts, family, reassigned=False):
+    res = run_tournament(fit, as_array, n, script)
+    k, msg = tour_oracle(fit, n, script, res, ts) if ts >= 1 else (None, None)
+    return {'fit': [key(v) for v in fit], 'as_array': as_array, 'n': n, 'script': script, 'res': res, 'oracle': msg,
+            'okey': k, 'ts': ts, 'family': family, 'reassigned': reassigned}
+
+
+def near_tie_rows(r, ts):
+    rows = []
+    reps = 1 if hlib.QUICK else 8
+    for rep in range(reps):
+        for hi, lo in NEAR:
+            pad = [r.choice([7.0, 9.5, 1e9]) for _ in range(r.randint(0, 2))]
+            fit = [hi] + pad + [lo] + [r.choice([hi, lo, 8.0]) for _ in range(r.randint(0, 2))]
+            L = len(fit)
+            win = 1 + len(pad)                        # first position of the smaller value
+            n = r.randint(1, 4)
+            script = []
+            for _ in range(n):
+                rnd_ = [win] + [r.choice([0, win, r.randrange(L)]) for _ in range(max(ts, 1) - 1)]
+                r.shuffle(rnd_)
+                script += rnd_
+            script += [r.randrange(L) for _ in range(4)]
+            rows.append(tour_row(fit, rep % 2 == 0, n, script, ts, 'near-tie'))
+    return rows
+
+
+def size_history_rows(r):
+    """re-assign constants.TOURNAMENT_SIZE (and restore it): rounds must draw that many individuals from then on"""
+    rows = []
+    orig = const.TOURNAMENT_SIZE
+    sizes = [3, 5, 1, orig] if hlib.QUICK else [3, 5, 1, 4, orig, 7, 1, orig]
+    try:
+        for ts in sizes:
+            const.TOURNAMENT_SIZE = ts
+            for c in range(6 if hlib.QUICK else 25):
+                L = r.randint(2, 7)
+                fit = [r.choice(FV[:6]) if r.random() < 0.5 else float(r.randint(-4, 4)) for _ in range(L)]
+                n = r.randint(1, 4)
+                script = [r.randrange(L) for _ in range(n * ts + 4)]
+                rows.append(tour_row(fit, c % 2 == 0, n, script, ts, 'size-history', reassigned=True))
+    finally:
+        const.TOURNAMENT_SIZE = orig
     return rows
 
 
@@ -480,9 +537,16 @@ def replay(rp):
         return out
     if kind == 'tournament':
         fit = [unkey(k) for k in c['fit']]
-        res = run_tournament(fit, c['as_array'], c['n'], c['script'])
-        k, msg = tour_oracle(fit, c['n'], c['script'], res, int(const.TOURNAMENT_SIZE))
-        return {'res': res, 'oracle': msg, 'fails': bool(k), 'row': dict(c, res=res)}
+        orig = const.TOURNAMENT_SIZE
+        try:
+            if c.get('reassigned'):
+                const.TOURNAMENT_SIZE = c['ts']          # the recorded history: re-assign the constant, then select
+            ts = int(const.TOURNAMENT_SIZE)
+            res = run_tournament(fit, c['as_array'], c['n'], c['script'])
+        finally:
+            const.TOURNAMENT_SIZE = orig
+        k, msg = tour_oracle(fit, c['n'], c['script'], res, ts)
+        return {'res': res, 'oracle': msg, 'fails': bool(k), 'row': dict(c, res=res, ts=ts)}
     if kind == 'pairwise':
         res = run_pairwise(c['vals'], c['kind'])
         k, msg = pair_oracle(c['vals'], res)
@@ -511,7 +575,8 @@ def replay_real(call):
             size = eval(call[3])
             u = rnd.generate_uniform_random_number(call[1], call[2], size)
             shape = (size,) if isinstance(size, int) else tuple(size)
-            bad = np.shape(u) != shape or not np.all((u >= call[1]) & (u < call[2]))
+            # a draw equal to `high` is the known finding uniform:high-attained-by-rounding; outside [low, high] is not
+            bad = np.shape(u) != shape or not np.all((u >= call[1]) & (u <= call[2]))
             return {'observed': [float(v) for v in np.ravel(u)][:20], 'fails': bool(bad)}
         if call[0] == 'gaussian':
             size = eval(call[3])
